@@ -428,6 +428,15 @@ func checkC15(c C15Case, o *Obs) error {
 				continue // Delete("") is outside the statement
 			}
 			desc = fmt.Sprintf("Delete(%q)", s)
+			// the last lookups before the Delete are for the proper prefixes of its operand (whatever
+			// a lookup remembers must not survive the pruning that follows)
+			for _, cut := range []int{len(s) / 2, len(s) - 1} {
+				if cut >= 1 {
+					if h, want := tr.Has([]byte(s[:cut])), m.hasPrefix(s[:cut]); h != want {
+						return fmt.Errorf("step %d: before %s: Has(%q) = %v, want %v (history %v)", step, desc, s[:cut], h, want, abbrevHist(hist))
+					}
+				}
+			}
 			var got bool
 			if p := catch(func() { got = tr.Delete([]byte(s)) }); p != nil {
 				return fmt.Errorf("step %d %s panicked: %v (history %v)", step, desc, p, hist)
@@ -436,6 +445,14 @@ func checkC15(c C15Case, o *Obs) error {
 			want := m.del(s)
 			if got != want {
 				return fmt.Errorf("step %d %s returned %v, want %v (history %v)", step, desc, got, want, hist)
+			}
+			// and the first lookups after it are for the same prefixes and for the operand itself
+			for _, cut := range []int{len(s) - 1, len(s) / 2, len(s)} {
+				if cut >= 1 {
+					if h, w := tr.Has([]byte(s[:cut])), m.hasPrefix(s[:cut]); h != w {
+						return fmt.Errorf("step %d: right after %s: Has(%q) = %v, want %v (history %v)", step, desc, s[:cut], h, w, abbrevHist(hist))
+					}
+				}
 			}
 			if want {
 				deletedTrue = true
